@@ -479,3 +479,61 @@ reg(
     "underscores ignored (inside such a group every assignment is tried); list order, x0/p0/c0/u0 and compute_fg "
     "(sympy.solve) are not judged; finite grid, ill-conditioned or non-real points skipped.",
 )
+
+reg(
+    "C27",
+    "E4-enum",
+    "exploration",
+    "every split of generated package libraries into 2-4 files x every file order through Tree.extend, tools.compiler.parse_all "
+    "and the CasADi api's directory walk, differential oracle against the unsplit one-file library",
+    "A package library (package constant, nested package with its own constant, models using each other as component type / "
+    "base class and the constants by dotted reference) is generated from a base plus every set of <= 1 (quick, 12 deviations) / "
+    "<= 2 (thorough, 16 deviations) feature deviations: top-level model, class import, alias import used for a constant, import "
+    "in the nested package, function, type alias, short class definition, constant as array dimension / start attribute, second "
+    "nested package, third nesting level, nested package without own content, full instead of relative names, (thorough) "
+    "component modification over a constant, encapsulated nested package, protected constant. For each library EVERY split into "
+    "2-4 files is enumerated (every subset of nested classes moved out into `within` files, every set partition of the moved "
+    "classes of one package and of the top-level classes into files, a package without own content optionally left to exist only "
+    "as the `within` placeholder; a package's own file keeps its constants and imports) and for each split EVERY permutation of "
+    "the files is merged by the real code: parser.parse + Tree.extend (first tree receives the rest); tools.compiler.parse_all on "
+    "a directory (file names assigned against the discovery order observed from list_modelica_files, so that the order visited is "
+    "the permutation; verified from parse_all's return value) and on an explicit file list; api.transfer_model -> _compile_model's "
+    "os.walk over a private model folder (same naming trick) and over model folder + one library folder per file, cache off. "
+    "For every class of the library the canonical flat model (pymoca.tree.flatten, JSON form, symbols by name) or the exception "
+    "type, resp. the generated CasADi model (variables by name with group / type / shape / attributes, DAE and initial residual at "
+    "3 grid points), must equal that of the unsplit library; a disagreement is classified as order-dependent or "
+    "differs-in-every-order. quick: 13 libraries, 797 splits, 9916 distinct file orders (base and base+top-level-model through all "
+    "five routes, the other libraries through Tree.extend), 13460 ordered merges, 81712 class evaluations; thorough: 137 libraries, "
+    "14750 splits, 214336 distinct file orders, 667504 ordered merges, 4.78e6 class evaluations.",
+    "The reference is pymoca itself on the unsplit text (the statement is metamorphic); independent of it only: every constant a "
+    "model of the unsplit library reports must carry the value our generator declared (alphabet sanity). Compared by meaning: the "
+    "per-file declaration counter `order` is dropped, variable order inside a CasADi group is not compared. Constants are referenced "
+    "by dotted names only (pymoca does not resolve an unqualified reference to an enclosing package's constant); package "
+    "inheritance, `within` naming a non-package, classes cut in two and duplicate definitions are excluded. Flattening / generation "
+    "is skipped for a merged tree whose complete structural dump (dict orders included, parent pointers verified consistent) equals "
+    "that of a tree already evaluated in the same worker; merging itself is always executed. The api's parse cache is the worker's "
+    "private one; on an edited tree pymoca.__version__ is pinned to a clean synthetic value so that the same cache path runs.",
+)
+
+reg(
+    "C16",
+    "E4-enum",
+    "exploration",
+    "bounded-exhaustive alias trees x attribute sets against a signed union-find + merge reference",
+    "Every alias tree over v1..vn (every labeled tree, both orientations of every link, link forms `a = b`, `a = -b`, "
+    "`a - b = 0`, `a + b = 0`, every order of the equation list; v1 a state / algebraic / input, the rest algebraic) crossed "
+    "with every set of <= k explicit attributes (min, max, nominal from 2-value grids, fixed false/true, start numeric / 0 / "
+    "parameter p) placed anywhere on the variables; generated and simplified as _compile_model does (generate + "
+    "simplify({'detect_aliases': True})).  Reference: signed union-find of the written equations; the surviving variable "
+    "is read from the model; its min/max (sign-swapped intersection), nominal (largest), fixed (any), start (own kept, "
+    "else some alias's, sign-adjusted) are compared on the Variable and in variable_metadata_function; alias_relation, "
+    "canonical_signed and Variable.aliases are compared with the union-find (membership and signs).  "
+    "quick: n=2 full structures x <=2 attributes; n=3 full structures x <=1 attribute; n=3 plain forms, one equation "
+    "order x 2 attributes (85 584 programs).  thorough: n=2 full x <=3; n=3 full x <=2, plain x 3; n=4 full x 0, plain forms in "
+    "one order x 1, basic (tree x signs) x 2 and x 3 (2 091 024 programs).  The per-level table is in the evidence (`levels`).",
+    "The survivor is not prescribed; with several explicit alias starts any is accepted; a class mixing explicit and absent "
+    "nominals may report max(explicit) (absent = 0, pymoca's convention, test_simplify_alias_small_nominal) or "
+    "max(1, explicit) (Modelica default); one state-or-input per class at most; attributes are literals or one parameter; "
+    "completeness of alias *detection* is not demanded (C14/C15), only counted.  n=4 with >= 2 attributes is complete only "
+    "over the reduced structure sets named in the evidence.",
+)
